@@ -93,3 +93,10 @@ PROPS["C08"]["assumptions"] = [
     "model follows the code and testEdge_eq_add_compute assumes a starting point",
     "CurrentPoint returns the longitude as given to AddPoint / as unrolled by AddEdge (the header says it is in [−180°, 180°]); the checks compare it with the stored value",
 ]
+
+# seeded round 7 (C08G, C08H)
+PROPS["C08"]["level_note"] = PROPS["C08"].get("level_note", "") + (
+    " Added after seeded round 7: relation edge-unrolled-longitude (after AddEdge in polygon mode the stored longitude minus the previous one is the longitude the "
+    "edge sweeps, judged from the reduced end longitude for edges of at most 2000 km below 75 degrees of latitude; current vertices outside [-180, 180] in a third "
+    "of the edge-vs-point cases), stratum over-the-pole (two vertices on opposite meridians) and relation solvers-agree (PolygonAreaExact against the series back "
+    "end on WGS84, areas modulo the ellipsoid area).")
